@@ -554,10 +554,25 @@ def r9(ctx):
     ctx.check(okc, rule, 'dedupe::partition|replica-count-excludes-links', where_, 'the number of retained replicas that is compared with n counts only sub-groups holding a real file',
               'the top-up compares n with the plain number of retained sub-groups: with `group -S --isolate -n 2` a retained symbolic link counts as one of the 2 replicas while the file it points to '
               'is dropped - one readable copy is left instead of two')
+    # (a2b) nothing is dropped when nothing that holds data is retained (a group of links only): dedupe_script asserts a non-empty to_keep
+    ap = [c for c in pt.calls(r'Vec<.*>::(append|extend)$|Vec::<T, A>::(append|extend)$|Extend<.*>>::extend$') if 'to_retain' in {pt.local_name(l) for l in backslice(pt, [c.args[0]]).locals}]
+    okn = False
+    for c in ap:
+        src_names = {pt.local_name(l) for a in c.args[1:] for l in backslice(pt, [a]).locals}
+        if 'to_drop' not in src_names:
+            continue
+        for d, bypass in bypass_decisions(pt, c.bb):
+            sl_ = backslice(pt, [pt.blocks[d]['term']['op']])
+            if sl_.has_call(r'Iterator>::any$|Iterator::any$|Iterator>::all$|Iterator::all$|::is_empty$'):
+                okn = True
+    ctx.check(okn, rule, 'dedupe::partition|nothing-retained-nothing-dropped', (ap[0].where() if ap else pt.where()), 'when no sub-group that holds data is retained, everything is retained (nothing can be dropped safely)',
+              'the retained set can be empty while the dropped set is not: for a group that consists of symbolic links only (targets not scanned) no sub-group is a replica, the top-up promotes nothing, '
+              'and PartitionedFileGroup::dedupe_script hits assert!(!to_keep.is_empty()): remove / link / move panic (exit 101) in the middle of the run, also with --dry-run')
     # (a3) aliases: several reported paths that are one directory entry (symlinked or bind-mounted parent directory)
     bodies = [pt] + [lib.body(x) for x in lib.closures_of(pt.path)]
-    nl = [c for x in bodies for c in x.calls(r'MetadataExt>::nlink$|MetadataExt::nlink$|Metadata::nlink$')]
+    nl = [c for x in bodies for c in x.calls(r'MetadataExt>::nlink$|MetadataExt::nlink$|Metadata::nlink$|path::Path::parent$')]
     oka = False
+    by_count = False
     if nl:
         for c in pt.calls(r'Vec<.*>::(push|extend|insert|append)$|Vec::<T, A>::push$'):
             names = {pt.local_name(l) for l in backslice(pt, [c.args[0]]).locals}
@@ -577,8 +592,10 @@ def r9(ctx):
                                 continue
                             seen_.add(q)
                             qb = lib.body(q)
-                            if qb.calls(r'nlink$'):
+                            if qb.calls(r'path::Path::parent$') and qb.calls(r'path::Path::file_name$') and qb.calls(r'FileMetadata::new$|^std::fs::metadata$'):
                                 oka = True
+                            if qb.calls(r'nlink$'):
+                                by_count = True
                             for kk in qb.calls():
                                 for aa in kk.args:
                                     ll = op_local(aa)
@@ -592,7 +609,9 @@ def r9(ctx):
                                 cq = lib.closure_of_type(ty_.lstrip('&').strip()) if 'closure@' in ty_ else None
                                 if cq:
                                     stack.append(cq)
-    ctx.check(oka, rule, 'dedupe::partition|aliases-not-dropped', (nl[0].where() if nl else pt.where()), 'a sub-group is retained when more reported paths share its file id than the file has links (the paths are one directory entry)',
+    ctx.check(oka, rule, 'dedupe::partition|aliases-not-dropped', (nl[0].where() if nl else pt.where()), 'a sub-group is retained when another reported path is the same directory entry (same parent directory id and file name)',
+              ('aliases are recognised only by counting (more reported paths with a file id than the file has links): one more hard link of the file outside the group (a snapshot, another tree) makes two paths that are '
+               'the SAME entry look like ordinary hard links, and the retained file is removed with the dropped one; ' if by_count else '') +
               'partition treats all reported paths as different directory entries: after a parent directory was replaced by a symbolic link to the other directory (`rm -rf backup; ln -s photos backup`), '
               'or with a bind mount, photos/a.jpg and backup/a.jpg are the same entry (same file id, link count 1) - one is "retained", the other removed, and the only copy is gone')
     # (b) the link target is chosen by link-ness
